@@ -6,7 +6,7 @@ import random
 from .. import model, runner, tree
 from ..core import JobResult, job_seed
 
-KEYS = ["ext", "dir", "is_dir", "mode", "uid", "length(name)", "gid", "is_file"]
+KEYS = ["ext", "dir", "is_dir", "mode", "uid", "length(name)", "gid", "is_file", "ext", "name", "lower(ext)"]
 INNERS = ["size", "hardlinks", "uid", "length(name)", "gid"]
 WHERES = [None, None, "size > 10", "name like '%a%'", "not is_dir", "uid = 1", "size between 1 and 1000"]
 INT_AGGS = ["count", "sum", "min", "max"]
@@ -18,6 +18,11 @@ def build(rng, root):
         if n["kind"] != "symlink":
             n["owner"] = (rng.choice([0, 1, 1, 7, 10]), rng.choice([0, 3, 20]))
             n["mode"] = rng.choice([0o644, 0o600, 0o755]) | (0o700 if n["kind"] == "dir" else 0)
+    used = set(n["path"] for n in nodes)
+    for nm in rng.sample(["app.log.1", "app.log.01", "x.001", "y.1e0", "z.1", "w.+1", "v.1.0", "u.0", "t.00", "s.-0", "1", "01", "1.0", "q.10", "p.1e1",
+                          "o.TXT", "n.txt", "m.Txt"], rng.randint(3, 9)):
+        if nm not in used:
+            nodes.append({"path": nm, "kind": "file", "size": rng.choice([1, 2, 5, 7])})
     tree.materialise(root, nodes)
 
 
@@ -172,5 +177,5 @@ def main(chk):
              "(keys, functions, where, order, groups).",
         assumptions=["group rows may come in any order unless ORDER BY is given", "numeric order keys compare as numbers, others by code point",
                      "sample statistics of single-row groups are don't-care"],
-        require={"keys": 8, "order_kinds": 6, "conservation_checked": 20},
+        require={"keys": 10, "order_kinds": 6, "conservation_checked": 20},
     )
